@@ -161,45 +161,56 @@ REENTRANT = """L = [3, 1, 2]
 M = {b: 2, a: 1, c: 3}
 T = (1, 2, 3)
 """
-# (receiver expr, template) - {cb} is replaced by a callback that touches the receiver
 def _reentrancy_cases():
+    """Scripts in which a callback, a second argument or an element's metakey touches the container
+    the running native function works on. {t} is the touching statement."""
     touches_l = ["size L", "L.push 9", "L.pop()", "L.clear()", "L.sort()", "L.to_tuple()", "L.first()", "L[0] = 5", "L.insert 0, 7",
                  "L.remove 0", "L.reverse()", "L.resize 1", "L.fill 0", "copy L", "'{L}'", "L == L", "L.contains 1", "L.extend L", "L.get 0",
-                 "L.retain |y| true", "L.transform |y| y", "L.swap [1]", "for q in L\n    L.push q\n    if size(L) > 20 then break"]
+                 "L.retain |y| true", "L.transform |y| y", "L.swap [1]", "L.iter().to_list()", "koto.deep_copy L", "L.last()", "L.is_empty()"]
     touches_m = ["size M", "M.insert 'z', 9", "M.remove 'a'", "M.clear()", "M.sort()", "M.keys().to_tuple()", "M.get 'a'", "M.a = 5",
                  "M.update 'a', |v| 0", "M.extend M", "copy M", "'{M}'", "M == M", "M.contains_key 'a'", "M[0]", "M.get_index 0", "M.values().to_list()",
-                 "M.remove_index 0" , "M.sort |k, v| size M"]
-    list_fns = ["L.transform |x| ({t}; x)", "L.retain |x| ({t}; true)", "L.sort |x| ({t}; x)", "L.each(|x| ({t}; x)).consume()",
-                "L.keep(|x| ({t}; true)).to_list()", "L.fold 0, |a, x| ({t}; a)", "L.find |x| ({t}; false)", "L.any |x| ({t}; false)",
-                "L.position |x| ({t}; false)", "L.min |x| ({t}; x)", "L.sort_by_key? |x| ({t}; x)", "for x in L\n  {t}\n  if size(L) > 20 then break",
-                "L.iter().each(|x| ({t}; x)).to_tuple()", "L.chunks(2).each(|c| ({t}; c)).consume()", "L.windows(2).each(|c| ({t}; c)).consume()"]
-    map_fns = ["M.sort |k, v| ({t}; k)", "M.update 'a', |v| ({t}; v)", "M.each(|e| ({t}; e)).consume()", "M.keep(|e| ({t}; true)).to_map()",
-               "M.fold 0, |a, e| ({t}; a)", "for k, v in M\n  {t}\n  if size(M) > 20 then break", "M.keys().each(|k| ({t}; k)).consume()",
-               "M.values().each(|k| ({t}; k)).consume()", "M.find |e| ({t}; false)"]
-    for fn in list_fns:
-        if "?" in fn:
-            continue
+                 "M.remove_index 0", "M.is_empty()", "koto.deep_copy M"]
+    # (callback signature, value returned by the callback, call using cb)
+    list_fns = [("|x|", "x", "L.transform cb"), ("|x|", "true", "L.retain cb"), ("|x|", "x", "L.sort cb"), ("|x|", "x", "L.each(cb).consume()"),
+                ("|x|", "true", "L.keep(cb).to_list()"), ("|a, x|", "a", "L.fold 0, cb"), ("|x|", "false", "L.find cb"), ("|x|", "false", "L.any cb"),
+                ("|x|", "true", "L.all cb"), ("|x|", "false", "L.position cb"), ("|x|", "x", "L.min cb"), ("|x|", "x", "L.max cb"), ("|x|", "x", "L.min_max cb"),
+                ("|x|", "x", "L.iter().each(cb).to_tuple()"), ("|c|", "c", "L.chunks(2).each(cb).consume()"), ("|c|", "c", "L.windows(2).each(cb).consume()"),
+                ("|x|", "x", "for x in L\n  cb x\n  if size(L) > 20 then break"), ("|x|", "x", "L.iter().reversed().each(cb).to_list()"),
+                ("|x|", "x", "L.iter().skip(1).each(cb).to_list()"), ("||", "0", "L.intersperse(cb).to_list()"), ("|x|", "'{x}'", "L.each(cb).to_string()"),
+                ("|x|", "(x, x)", "L.each(cb).to_map()"), ("|x|", "x", "L.each(cb).sum()"), ("|x|", "x", "L.each(cb).count()"), ("|x|", "x", "L.each(cb).last()"),
+                ("|x|", "[x]", "L.each(cb).flatten().to_list()"), ("|x|", "x", "L.each(cb).cycle().take(7).to_list()"), ("|x|", "x", "L.each(cb).zip(L).to_list()"),
+                ("|x|", "x", "L.each(cb).chain(L).to_list()"), ("|x|", "x", "L.each(cb).enumerate().to_list()"), ("|x|", "x", "L.each(cb).step(2).to_list()"),
+                ("|x|", "x", "L.each(cb).peekable().to_list()"), ("|x|", "x", "L.each(cb).take(2).to_list()"), ("|x|", "x", "L.each(cb).skip(1).next()")]
+    map_fns = [("|k, v|", "k", "M.sort cb"), ("|v|", "v", "M.update 'a', cb"), ("|e|", "e", "M.each(cb).consume()"), ("|e|", "true", "M.keep(cb).to_map()"),
+               ("|a, e|", "a", "M.fold 0, cb"), ("|k|", "k", "for k, v in M\n  cb k\n  if size(M) > 20 then break"), ("|k|", "k", "M.keys().each(cb).consume()"),
+               ("|k|", "k", "M.values().each(cb).consume()"), ("|e|", "false", "M.find cb"), ("|v|", "v", "M.update 'nope', 0, cb"), ("|e|", "e", "M.each(cb).to_list()"),
+               ("|e|", "e", "M.iter().reversed().each(cb).to_list()")]
+    def mk(sig, ret, call, t):
+        return "cb = %s\n  %s\n  %s\n%s" % (sig, t, ret, call)
+    for sig, ret, call in list_fns:
         for t in touches_l + touches_m[:6]:
-            yield fn.replace("{t}", t)
-    for fn in map_fns:
+            yield mk(sig, ret, call, t)
+    for sig, ret, call in map_fns:
         for t in touches_m + touches_l[:6]:
-            yield fn.replace("{t}", t)
-    # receivers passed to themselves
+            yield mk(sig, ret, call, t)
+    # receivers passed to themselves, self-referential containers
     for s in ["L.extend L", "L.swap L", "M.extend M", "L.push L\nprint L", "M.insert 'm', M\nprint M", "L.push L\nL == L", "M.insert 'm', M\nM == M",
-              "L.push L\nkoto.hash L", "L.push L\ndeep_copy? L", "L.push L\nkoto.deep_copy L", "M.insert 'm', M\nkoto.deep_copy M",
+              "L.push L\nkoto.hash L", "L.push L\nkoto.deep_copy L", "M.insert 'm', M\nkoto.deep_copy M",
               "L.push L\nL.sort()", "L.push L\nL.contains L", "L.push L\n'{L}'", "L.push L\nL.to_tuple() == L.to_tuple()",
               "it = L.iter()\nit.each(|x| it.next()).to_list()", "it = L.iter()\nit.zip(it).to_list()", "it = L.iter()\nit.chain(it).to_list()",
               "it = M.iter()\nit.each(|x| it.next()).to_list()", "p = L.iter().peekable()\np.each(|x| p.peek()).to_list()",
-              "L.insert 1, L\nL.flatten().to_list()", "x = [L, L]\nx.flatten().each(|q| L.pop()).to_list()"]:
-        if "?" in s:
-            continue
+              "L.insert 1, L\nL.flatten().to_list()", "x = [L, L]\nx.flatten().each(|q| L.pop()).to_list()", "L.extend L.iter()", "M.extend M.iter()",
+              "L.extend L.iter().each |x| L.pop()", "L.insert 0, L\nL.first().push 1\nsize L", "M.insert M, 1", "L.fill L\nL == L", "L.resize 5, L\nprint L",
+              "x = (L, L)\nL.push x\nx == x", "x = (L,)\nL.push x\nkoto.hash x", "x = (L,)\nL.push x\nm = {}\nm.insert x, 1", "L.push M\nM.l = L\nprint L",
+              "L.push M\nM.l = L\nL == L.to_list()", "L.push L\nL.to_tuple().contains L", "L.push L\nt = L.to_tuple()\nt == t"]:
         yield s
     # element metakeys that touch the container being compared / sorted / displayed
-    for body, op in [("@==: |o| (L.push 1; true)", "L == L.to_list()"), ("@<: |o| (L.pop(); true)", "L.sort()"), ("@display: || (L.clear(); 'e')", "'{L}'"),
-                     ("@display: || (L.push 1; 'e')", "print L"), ("@<: |o| (L.push 1; false)", "L.min()"), ("@==: |o| (L.clear(); false)", "L.contains 5"),
-                     ("@<: |o| (L.clear(); false)", "L.sort()"), ("@==: |o| (M.clear(); true)", "M == M.to_map()? "), ("@display: || (M.insert 'q', 1; 'e')", "'{M}'")]:
-        if "?" in op:
-            continue
+    for body, op in [("@==: |o| (L.push 1) == null", "L == L.to_list()"), ("@<: |o| (L.pop()) == null", "L.sort()"), ("@display: || '{L.clear()}'", "'{L}'"),
+                     ("@display: || '{L.push 1}'", "print L"), ("@<: |o| (L.push 1) == 5", "L.min()"), ("@==: |o| (L.clear()) == 5", "L.contains 5"),
+                     ("@<: |o| (L.clear()) == 5", "L.sort()"), ("@==: |o| (M.clear()) == null", "M == M.to_map()"), ("@display: || '{M.insert 'q', 1}'", "'{M}'"),
+                     ("@<: |o| (L.sort()) == 5", "L.sort()"), ("@<: |o| (L.clear()) == 5", "L.max()"), ("@==: |o| (L.clear()) == 5", "L.position |x| x == 5"),
+                     ("@display: || '{M.clear()}'", "print M"), ("@==: |o| (L.remove 0) == 5", "L.to_tuple() == L.to_tuple()"),
+                     ("@<: |o| (M.clear()) == 5", "M.sort |k, v| v"), ("@next: || (L.clear()) == 5", "L.extend e")]:
         yield "e = {%s}\nL.push e\nL.push e\nM.insert 'e', e\n%s" % (body, op)
 
 def _reentrancy_shard(shard, n, tier, seed, budget_s):
@@ -304,7 +315,28 @@ def run(tier, seed):
                ("reentrancy", _reentrancy_shard, 60)]
     cov = {"evaluations": 0, "distinct_nontrivial": 0, "samples": [], "panic_signatures": {}, "streams": {},
            "excluded_alloc_or_stack": 0, "hangs": 0}
+    # witnesses of the recorded findings are replayed first
+    w = Worker()
+    wrep = _new_rep()
+    for f in chk.known:
+        wit = f.get("witness") or {}
+        if "src" not in wit:
+            continue
+        if wit.get("op") == "format":
+            try:
+                r = w.call({"op": "format", "src": wit["src"], "options": {}}, timeout=10)
+            except (WorkerDied, WorkerHang):
+                r = {}
+            _observe(wrep, "format", wit["src"], r, "witness " + f["id"])
+        else:
+            r = w.exec(wit["src"], timeout=10, limit_ms=500)
+            _observe(wrep, "exec", wit["src"], r, "witness " + f["id"])
+    w.close()
+    chk.merge_shard(wrep)
+    only = os.environ.get("KV_STREAMS")
     for name, fn, budget in streams:
+        if only and name not in only.split(","):
+            continue
         shards = fan_out(fn, tier=tier, seed=seed, budget_s=budget)
         st = {"evaluations": 0, "distinct": 0, "compiled": 0, "ran": 0, "formatted": 0, "hangs": 0, "excluded": 0,
               "deaths": {}, "budget_exhausted": False}
